@@ -212,6 +212,13 @@ func checkC14(c C14Case, o *Obs) (err error) {
 }
 
 func exhaustiveC14(thorough bool, emit func(C14Case) bool) {
+	// gene- and contig-sized coding sequence (size ladder), real-data-shaped
+	for i, n := range sizeLadder {
+		s := realDNA(n, i, false, true)
+		if !emit(C14Case{Kind: "frames", Seq: s}) || !emit(C14Case{Kind: "translate", Seq: s[:n/3*3], Cut: n / 7}) {
+			return
+		}
+	}
 	all := make([]byte, 256)
 	for i := range all {
 		all[i] = byte(i)
